@@ -1326,6 +1326,20 @@ def run(ctx, t0):
     pat.FACTS = facts
     rules = [rule_lzma2_writer(facts), rule_multibyte_writer(facts), rule_block_header(facts), rule_padding(facts),
              rule_backward(facts), rule_lzma_header(facts), rule_rangecoder(facts), rule_carry(facts)]
+    # the CRC32 / counts the XZ writer stores are those of the bytes the sink accepted (shared clause: C12.R2 on the encoder's adapters)
+    from rules import C12 as _c12
+    src = _c12.rule_r2(facts)
+    r9 = report.RuleResult("C04.R9", "the writer's digesting / counting adapters account exactly the bytes the sink accepted (= C12.R2 on encode::util)")
+    for f in src.findings:
+        if "encode::" in (f.where + f.key) or f.key.startswith("floor"):
+            f.rule = "C04.R9"
+            r9.findings.append(f)
+            r9.obligations += 1
+    r9.sites = src.sites
+    r9.need("short-write sites analysed", src.sites >= 2)
+    if not r9.findings:
+        r9.ok("provenance", {"encode::util adapters": "digest / count buf[..n] with n the count returned by the inner write"})
+    rules.append(r9)
     expl = ("Static, writer-side framing clauses only: guards and emitted-byte terms of the LZMA2 / multi-byte / XZ / .lzma "
             "header writers are extracted from MIR and evaluated over finite domains against the format (and composed with the "
             "reader's extracted terms for inverse checks); sibling agreement of the encoder's context indices with the header "
